@@ -242,7 +242,7 @@ Definition tdiv (t : tridiag) (s : T) : res tridiag :=
   Ok (mkT sub main sup (tn t)).
 Definition tadd_assign_s (t : tridiag) (s : T) : tridiag :=
   mkT (vadd_scalar (tsub t) s) (vadd_scalar (tmain t) s) (vadd_scalar (tsup t) s) (tn t).
-Definition tminusassign_s (t : tridiag) (s : T) : tridiag :=
+Definition tsub_assign_s (t : tridiag) (s : T) : tridiag :=
   mkT (vsub_scalar (tsub t) s) (vsub_scalar (tmain t) s) (vsub_scalar (tsup t) s) (tn t).
 Definition tmul_assign_s (t : tridiag) (s : T) : tridiag :=
   mkT (vmul_scalar (tsub t) s) (vmul_scalar (tmain t) s) (vmul_scalar (tsup t) s) (tn t).
@@ -317,7 +317,7 @@ Definition run_arith (left : bool) (sub main sup sub2 main2 sup2 : list T) (s : 
       ++ (if left then fl_tri (tscale_l s t) else [])
       ++ fl_res fl_tri (tdiv t s)
       ++ fl_tri (tadd_assign_s t s)
-      ++ fl_tri (tminusassign_s t s)
+      ++ fl_tri (tsub_assign_s t s)
       ++ fl_tri (tmul_assign_s t s)
       ++ fl_res fl_tri (tdiv_assign_s t s)
   | Panic k, _ => fl_panic k
